@@ -1,6 +1,8 @@
 package compiler
 
 import (
+	"sort"
+
 	"github.com/smarthome-go/homescript/v3/homescript/analyzer/ast"
 	"github.com/smarthome-go/homescript/v3/homescript/errors"
 	pAst "github.com/smarthome-go/homescript/v3/homescript/parser/ast"
@@ -126,13 +128,22 @@ func (self *Compiler) compileProgram(
 ) (MangleMappings, ModuleAnnotations, error) {
 	initFns := make(map[string]string)
 
+	// Modules are visited in name order: generated names (`$lambda_N`) and the order of the modules'
+	// initialisation calls must not depend on map iteration order.
+	moduleNames := make([]string, 0, len(program))
+	for moduleName := range program {
+		moduleNames = append(moduleNames, moduleName)
+	}
+	sort.Strings(moduleNames)
+
 	mappings := MangleMappings{
 		Functions:  make(map[string]string),
 		Globals:    make(map[string]string),
 		Singletons: make(map[string]string),
 	}
 
-	for moduleName, module := range program {
+	for _, moduleName := range moduleNames {
+		module := program[moduleName]
 		self.enterModule(moduleName)
 		self.modules[self.currModule] = make(map[string]*Function)
 
@@ -202,7 +213,8 @@ func (self *Compiler) compileProgram(
 
 	// Now that every module's globals and functions are known, make the items which a module imports
 	// from another Homescript module visible in the importing module (and only there).
-	for moduleName, module := range program {
+	for _, moduleName := range moduleNames {
+		module := program[moduleName]
 		for _, item := range module.Imports {
 			if !item.TargetIsHMS {
 				continue
@@ -244,7 +256,8 @@ func (self *Compiler) compileProgram(
 
 	moduleAnnotations := make(ModuleAnnotations)
 
-	for moduleName, module := range program {
+	for _, moduleName := range moduleNames {
+		module := program[moduleName]
 		self.enterModule(moduleName)
 
 		// Compile all functions
@@ -291,8 +304,9 @@ func (self *Compiler) compileProgram(
 			self.currFn = InitFunctionIdent
 			self.enterModule(entryPointModule)
 
-			for moduleName, otherInit := range initFns {
-				if moduleName == entryPointModule {
+			for _, moduleName := range moduleNames {
+				otherInit, found := initFns[moduleName]
+				if !found || moduleName == entryPointModule {
 					continue
 				}
 
